@@ -52,9 +52,17 @@ def run_one(pid, name, m, tier="quick", seed="1", extra_env=None):
         else:
             path = os.path.join(tmp, m["file"])
             s = open(path).read()
-            if s.count(m["old"]) != 1:
+            nth = m.get("nth")          # 1-based occurrence to replace when the text occurs several times
+            if nth is None and s.count(m["old"]) != 1:
                 return {"status": "no-unique-match", "count": s.count(m["old"])}
-            open(path, "w").write(s.replace(m["old"], m["new"]))
+            if nth is not None:
+                if s.count(m["old"]) < nth:
+                    return {"status": "no-unique-match", "count": s.count(m["old"])}
+                parts = s.split(m["old"])
+                s = m["old"].join(parts[:nth]) + m["new"] + m["old"].join(parts[nth:])
+            else:
+                s = s.replace(m["old"], m["new"])
+            open(path, "w").write(s)
         env = dict(os.environ, VERIF_REPO=tmp, VERIF_SEED=seed)
         env.update(extra_env or {})
         t0 = time.time()
@@ -90,6 +98,8 @@ def main():
                 continue
             res = run_one(pid, name, m, tier)
             res["what"] = m.get("what", "")
+            if m.get("equivalent") and res["status"] == "survived":
+                res["status"] = "equivalent"
             sens.setdefault(pid, {})[name] = res
             print("%s %-45s %-9s %5.1fs %s" % (pid, name, res["status"], res.get("wall_s", 0),
                                                (res.get("violations") or [res.get("tail", "")[-200:]])[0][:150]))
